@@ -40,6 +40,16 @@ Theorem C10_table_bytes : forall l bs rest,
 Proof. exact dec_entries_enc. Qed.
 Print Assumptions C10_table_bytes.
 
+(* the whole file — header, table, data — read back from its bytes IS the state: nothing is held only
+   in memory, and every byte is accounted for *)
+Theorem C10_whole_file : forall version cd md ad s bs,
+  wfb header_fmt (header_v version (s_n s) cd md ad) = true ->
+  Forall (fun e => wfb entry_fmt (entry_v e) = true) (tab s) -> zlength (tab s) = s_n s ->
+  file_bytes version cd md ad s = Some bs ->
+  parse_file bs = Some (header_v version (s_n s) cd md ad, map entry_v (tab s), data s).
+Proof. exact parse_file_bytes. Qed.
+Print Assumptions C10_whole_file.
+
 (* reading a block through the open object = decoding the bytes stored on disk at its entry *)
 Theorem C10_read_through : forall a ty lb, ty <> 0 -> a_find a ty = Some lb ->
   exists off rest, c_get_type (conc a) ty = Some (live_entry off lb, l_payload lb ++ rest) /\
